@@ -103,6 +103,7 @@ def run(chk):
                  "generate: WITH in front of UPDATE / MERGE", workers=1, coverage=False, timeout=6000)
     wc = [c for c in gw.cases("CASE") if any(e["e"] == "cteref" for e in c["prog"])]
     rnd.shuffle(wc)
+    wc.sort(key=lambda c: len(c["prog"]))       # the small ones first: a MERGE whose source is just the CTE can name it directly
     wc = wc[:40 if quick else 600]
     cases += wc + [dict(c, merge_direct=True) for c in wc if c["prog"][0]["a"] == "merge"]
     jobs, owner = [], []
